@@ -21,7 +21,7 @@ REPO = os.environ.get("VERIF_REPO", "/repo")
 SPEC = os.path.join(ROOT, "spec")
 HARNESS = os.path.join(ROOT, "harness")
 BUILD = os.path.join(ROOT, ".build")
-EVIDENCE = os.path.join(ROOT, "evidence")
+EVIDENCE = os.environ.get("VERIF_EVIDENCE_DIR") or os.path.join(ROOT, "evidence")   # seedtest redirects evidence of mutant runs
 REPLAYS = os.path.join(ROOT, "replays")
 FINDINGS = os.path.join(ROOT, "known_findings.jsonl")
 NCPU = os.cpu_count() or 4
